@@ -190,6 +190,12 @@ func genRules(t *rapid.T, tier string) (*World, any) {
 			break
 		}
 	}
+	if len(p.Targets) >= 2 && chance(t, 15, "same-program") {
+		// two rules of one file whose data files say the same: each operand line is still updated and compared on its own
+		a, b := p.Targets[0].Arg, p.Targets[1].Arg
+		w.Files["crs/regex-assembly/"+b+".ra"] = w.Files["crs/regex-assembly/"+a+".ra"]
+		feat["two-targets-same-expression"] = true
+	}
 	if len(p.Targets) >= 2 && chance(t, 10, "stash-pair") {
 		// one file stores an expression, a later one (in walk order) only reads it: invalid on its own, and no --all run may make it valid
 		a, b := p.Targets[0].Arg, p.Targets[1].Arg
